@@ -476,6 +476,19 @@ class MatEval:
                 # several returns: must agree under the current assumptions
                 pass
             return sub[-1][1] if len(sub) == 1 else self._pick(sub)
+        # private helper *method* of the class (self._name(args)): inline its return value
+        if isinstance(e.func, ast.Attribute) and is_self_attr(e.func) and e.func.attr.startswith("_") and not e.func.attr.startswith("__"):
+            g = self.k.resolve(e.func.attr)
+            if g is not None and not g.is_property and not g.is_abstract and g.name not in ("_left_matrix_multiply", "_right_matrix_multiply", "_construct_array", "_construct_transpose", "_construct_inv", "_construct_sqrt", "_scalar_multiply"):
+                binds = {}
+                for prm, a in zip(g.params[1:], e.args):
+                    binds[prm] = env[a.id] if isinstance(a, ast.Name) and a.id in env else self.ev(f, a, env)
+                for kw in e.keywords:
+                    binds[kw.arg] = self.ev(f, kw.value, env)
+                sub = self.returns(g, binds)
+                if not sub:
+                    raise AnalysisError(f"{f.qualname}: helper {g.qualname} has no return")
+                return sub[-1][1] if len(sub) == 1 else self._pick(sub)
         # private module-level helper function (e.g. an extracted expression): inline
         if isinstance(e.func, ast.Name) and e.func.id in f.module.functions and e.func.id not in self.p.classes and e.func.id not in env:
             g = f.module.functions[e.func.id]
